@@ -47,6 +47,7 @@ type hist struct {
 	focusHi        int
 	growSeq        int
 	holeGrowSplits int
+	netZero        int
 }
 
 func mkValue(step, vlen int) string {
@@ -545,6 +546,10 @@ func (h *hist) phases(maxPhases, maxSteps int, weights []int) error {
 			if err := h.holeAndGrow(maxSteps); err != nil {
 				return err
 			}
+		case 7:
+			if err := h.netZeroSession(maxSteps); err != nil {
+				return err
+			}
 		}
 	}
 	return h.fullCheck("at the end of the history")
@@ -634,6 +639,119 @@ func (h *hist) holeAndGrow(maxSteps int) error {
 		h.holeGrowSplits += h.lastBuckets - bucketsBefore
 	}
 	return h.fullCheck("after the hole-and-grow phase")
+}
+
+// netZeroSession is a directed phase aimed at metadata that Close persists: a session whose net
+// effect leaves the number of keys, the number of buckets, level and split pointer exactly as
+// they were loaded, although the index changed underneath (an insert into a completely full
+// chain takes a bucket from the free overflow-bucket list, a delete elsewhere restores the key
+// count). The phase is bracketed by clean restarts; the restart check compares the complete
+// index metadata before Close and after Open.
+func (h *hist) netZeroSession(maxSteps int) error {
+	type chainInfo struct {
+		idx      int
+		tailFree int
+		hash     uint32
+		buckets  int
+	}
+	survey := func() (best *chainInfo, free int, other string) {
+		_ = core.Safe(func() error {
+			d, _, err := h.db.VerifIndexDump(100000)
+			if err != nil {
+				return err
+			}
+			free = len(d.FreeBuckets)
+			for bi, chain := range d.Chains {
+				tail := chain[len(chain)-1]
+				used := 0
+				var hsh uint32
+				for _, sl := range tail.Slots {
+					if sl.Offset != 0 {
+						used++
+						hsh = sl.Hash
+					}
+				}
+				if used == 0 {
+					continue
+				}
+				ci := &chainInfo{idx: bi, tailFree: len(tail.Slots) - used, hash: hsh, buckets: len(chain)}
+				if best == nil || ci.tailFree < best.tailFree {
+					best = ci
+				}
+			}
+			// a live key of another chain (to be deleted so that the key count nets to zero)
+			if best != nil {
+				for bi, chain := range d.Chains {
+					if bi == best.idx {
+						continue
+					}
+					for _, b := range chain {
+						for _, sl := range b.Slots {
+							if sl.Offset != 0 && other == "" {
+								if k, _, err := h.db.VerifReadSlot(sl); err == nil {
+									other = string(k)
+								}
+							}
+						}
+					}
+				}
+			}
+			return nil
+		})
+		return
+	}
+	best, free, _ := survey()
+	if best == nil || best.tailFree > 12 || h.step+best.tailFree+4 > maxSteps {
+		h.st.Count("netzero_phase_not_applicable", 1)
+		return nil
+	}
+	h.ch.Note("phase net-zero session: chain %d (%d buckets, %d free slots in its tail), %d free overflow buckets", best.idx, best.buckets, best.tailFree, free)
+	seed := h.db.VerifHashSeed()
+	mk := func() string {
+		h.growSeq++
+		// same low bits as a key of the chain (same bucket for every level reached here), new high bits
+		target := best.hash&0x000fffff | uint32(h.growSeq&0xfff)<<20
+		k := string(keys.WithHash([]byte{9, byte(h.growSeq), byte(h.growSeq >> 8), 1}, seed, target))
+		h.ukeys = append(h.ukeys, k)
+		return k
+	}
+	// fill the tail of the chain completely
+	for i := 0; i < best.tailFree; i++ {
+		if err := h.put(mk(), 5); err != nil {
+			return err
+		}
+	}
+	if err := h.restart(false); err != nil {
+		return err
+	}
+	b2, free2, other := survey()
+	if b2 == nil || other == "" {
+		return nil
+	}
+	before, _ := h.idxMeta()
+	// the session: one delete elsewhere, one insert into the full chain
+	if err := h.del(other); err != nil {
+		return err
+	}
+	if err := h.put(mk(), 5); err != nil {
+		return err
+	}
+	after, _ := h.idxMeta()
+	if before.Keys == after.Keys && before.Buckets == after.Buckets && before.Level == after.Level && before.S == after.S && before.Free != after.Free {
+		h.st.Count("netzero_sessions_changing_only_the_free_list", 1)
+		h.netZero++
+	}
+	_ = free2
+	if err := h.restart(false); err != nil {
+		return err
+	}
+	// use the index once more: further overflow allocations must not hand out a live bucket
+	for i := 0; i < 3 && h.step < maxSteps; i++ {
+		if err := h.put(mk(), 5); err != nil {
+			return err
+		}
+	}
+	return h.fullCheck("after the net-zero session phase")
 }
 
 func (h *hist) classify() {
